@@ -118,6 +118,27 @@ func init() {
 			more := append(append([]string{}, MoreDirectiveAtoms...), "\\", "{{", "@", " ", "(", "x")
 			secs = append(secs, seqSections("more-directives-", more, 2, runText)...)
 			secs = append(secs, seqSections("comment-body-", TextAtoms, k-1, runComment)...)
+			// raw control and non-UTF-8 bytes in text and in comments, alone and between every pair of atoms
+			ctrl := []string{"\x00", "\x01", "\b", "\t", "\v", "\f", "\x1b", "\x7f", "\x80", "\xa0", "\xc3", "\xff"}
+			around := append([]string{""}, TextAtoms...)
+			secs = append(secs, core.Section{Name: "control-bytes", Exhaustive: true, N: len(ctrl) * len(around),
+				Run: func(c *core.Ctx, i int) {
+					b, a := ctrl[i%len(ctrl)], around[i/len(ctrl)]
+					for _, z := range around {
+						runText(c, a+b+z)
+						runComment(c, a+b+z)
+						for _, sp := range splices[:3] {
+							src := a + b + sp.src + b + z
+							if _, at := scanText(src); at != len(a+b) {
+								continue
+							}
+							o1, _ := scanText(a + b)
+							if o2, at2 := scanText(b + z); at2 < 0 {
+								judge(c, "control-splice-"+sp.name, src, o1+sp.out+o2)
+							}
+						}
+					}
+				}})
 			// splices: t1 · C · t2 for all text strings of up to 2 atoms (3 on one side in thorough)
 			var texts []string
 			seen := map[string]bool{}
@@ -201,7 +222,7 @@ func init() {
 				}})
 			// the same texts through template files: page, layout, insert block, component file, slot body,
 			// between slots; rendered with String and written with Response
-			fileTexts := append(append([]string{}, texts...), "100% sure", "%d %s %v", "50%", "%", "%%", "a%", "\u00a0", "\f", "é\u3000", "i", "if", "It")
+			fileTexts := append(append([]string{}, texts...), "100% sure", "%d %s %v", "50%", "%", "%%", "a%", "\u00a0", "\f", "é\u3000", "i", "if", "It", "a\x00b", "\x00", "\xff\x01")
 			secs = append(secs, core.Section{Name: "text-through-files", Exhaustive: true, N: len(fileTexts),
 				Run: func(c *core.Ctx, i int) {
 					t := fileTexts[i]
